@@ -147,6 +147,19 @@ def replay_case(h, case, strict=True, check_ops=True, check_parse=True):
         want = tuple(R.norm_ast_spec(s) for s in prog)
         got = tuple(R.norm_ast_impl(s) for s in pr["stmts"])
         if want != got:
+            # Renderer or parser?  The same program with every operand parenthesised does not depend on the
+            # parser's grouping: if THAT parses to the generated AST, the minimally parenthesised text was grouped
+            # differently from the published precedence - the programs of C01 are "printed with minimal parentheses".
+            R.FULL_PARENS = True
+            try:
+                full = R.program(prog)
+            finally:
+                R.FULL_PARENS = False
+            pf = h.req({"op": "parse", "src": full})
+            if pf.get("ok") and tuple(R.norm_ast_impl(s) for s in pf["stmts"]) == want:
+                return {"status": "violation", "key": "parse:grouping-of-minimally-parenthesised-text", "text": text,
+                        "kind": "grouping", "detail": {"fully_parenthesised": full, "want": repr(want)[:600],
+                                                       "got": repr(got)[:600]}}
             return {"status": "toolerr", "text": text, "why": "rendered text does not parse back to the generated AST",
                     "want": repr(want)[:600], "got": repr(got)[:600]}
     obs = observed_outcome(ev)
